@@ -2,7 +2,7 @@
     retired nameplate / mailbox.  Classification and timing rule (for EVERY
     number of sides and every list of moods); the counting part (one record per
     retirement, none otherwise, the status row) is quoted from UsageCount.v. *)
-From MW Require Import Base Store Monad Usage Server Websocket Service Inv Obs UsageFacts ProtoFacts UsageCount Inst_Params.
+From MW Require Import Base Store Monad Usage Server Websocket Service Inv Obs UsageFacts ProtoFacts UsageCount UsageCount2 Inst_Params.
 
 (** nameplates: crowded (> 2 sides), else pruney, else happy (2 sides), else lonely *)
 Theorem C15_nameplate_result :
@@ -83,6 +83,16 @@ Theorem C15_close_usage : ltac:(let t := type of close_usage in exact t).
 Proof. exact close_usage. Qed.
 Check C15_close_usage.
 Print Assumptions C15_close_usage.
+
+(** a close re-sent on a connection that does not hold the mailbox: opened first
+    (created if it no longer exists), then closed; when that close deletes it --
+    a retirement like any other, also of a transient mailbox created inside the
+    command -- exactly one mailbox record and one per nameplate pointing at it;
+    otherwise (internal failure, crowded, not the last side) nothing *)
+Theorem C15_close_fresh_usage : ltac:(let t := type of close_fresh_usage in exact t).
+Proof. exact close_fresh_usage. Qed.
+Check C15_close_fresh_usage.
+Print Assumptions C15_close_fresh_usage.
 
 (** every other command writes no nameplate, mailbox or status record (bind adds
     one client-version row): objects still alive produce none *)
